@@ -927,6 +927,25 @@ def f10_function_counts(ctx) -> None:
                 ctx.ok("F10", "Function.increase_value: the new value's count increases by one")
             else:
                 ctx.violation("F10", f, f"Function.increase_value must increase self._preimage_count[{oname} + 1] by one", construct=f"{FN}.increase_value new count")
+    # the list is grown only for a key that is beyond it: every call sits in an `except IndexError` handler
+    for mm in P.need_class(FN).methods.values():
+        for c in _calls(mm.node, "self._increase_list_len"):
+            node = c
+            where = None
+            while node is not None and node is not mm.node:
+                par_ = getattr(node, "_parent", None)
+                if isinstance(par_, ast.ExceptHandler):
+                    where = ("handler", par_)
+                    break
+                if isinstance(par_, ast.Try):
+                    where = ("finally" if any(node is x for x in par_.finalbody) else "else" if any(node is x for x in par_.orelse) else "body", par_)
+                    break
+                node = par_
+            if where is not None and where[0] == "handler" and C.caught(C.handler_names(where[1]), "IndexError"):
+                ctx.ok("F10", f"{mm.qualname}: the value list is grown only after an IndexError for that key")
+            else:
+                ctx.violation("F10", c, f"{mm.qualname}: `{norm(c)}` runs {'in the ' + where[0] + ' part of a try' if where else 'unconditionally'}, also for a key the list already covers: "
+                              "key - len + 1 is then zero or negative and the count of value 0 is lowered, which moves the gap")
     # growing the list keeps the histogram in step
     g = P.need_method(FN, "_increase_list_len", own=True)
     ctx.analysed(g)
